@@ -381,13 +381,14 @@ theorem run_spec (cfg : Cfg) : ∀ (ops : List Op) (c : Coll) (l : List Item), J
     obtain ⟨c1, r, e, hj, hr⟩ := step_spec cfg h op hv1 hv2
     rw [e] at hv3
     obtain ⟨c2, l2, rs, e2, hj2, hrs⟩ := run_spec cfg ops c1 (specStep l op) hj hv3
-    refine ⟨c2, l2, (match r with | some v => [(v, ((specStep l op).length : Int))] | none => []) ++ rs, by simp [run, e, e2], hj2, ?_⟩
-    intro p hp
-    rw [List.mem_append] at hp
-    rcases hp with hp | hp
-    · cases r with
-      | none => simp at hp
-      | some v => simp at hp; subst hp; exact hr v rfl
-    · exact hrs p hp
+    cases r with
+    | none =>
+      refine ⟨c2, l2, rs, by simp [run, e, e2], hj2, hrs⟩
+    | some v =>
+      refine ⟨c2, l2, (v, ((specStep l op).length : Int)) :: rs, by simp [run, e, e2], hj2, ?_⟩
+      intro p hp
+      rcases List.mem_cons.mp hp with rfl | hp
+      · exact hr v rfl
+      · exact hrs p hp
 
 end PonyVerif.Model.SetCount
